@@ -156,7 +156,7 @@ def extract_quadrilateral_ROI(
     elif interpolation == "inter_linear":
         interpolation_flag = cv2.INTER_LINEAR
     elif interpolation == "inter_area":
-        interpolation_flag == cv2.INTER_AREA
+        interpolation_flag = cv2.INTER_AREA
     else:
         raise NotImplementedError
 
